@@ -202,6 +202,8 @@ def diff_scn(si, sm, sections=None):
         for key in keys:
             if key.startswith("pfx"):
                 continue  # oracle-side sections printed by the harness only (prefix graphs, C16)
+            if key.startswith("cert_") or key.startswith("bg_cert"):
+                continue  # certificate verdicts printed by the model driver only (judged via model_certs)
             base = key.split(":")[-1] if key.startswith("snap:") else key
             if sections is not None and base not in sections and key not in sections:
                 continue
